@@ -62,6 +62,8 @@ PrefixesOk(e) ==      \* e.ks: the cut positions tried (all of 0..n-1 for ordina
   /\ \A i \in 1..Len(e.ks) : e.ks[i] \in 0..(n - 1) /\ e.cuts[i].v = "inc" /\ HintOk(e.cuts[i], n - e.ks[i])
   /\ e.sh => /\ Len(e.ccuts) = Len(e.ks)
              /\ \A i \in 1..Len(e.ks) : IF e.ks[i] = 0 THEN e.ccuts[i].v = "none" ELSE e.ccuts[i].v = "inc" /\ HintOk(e.ccuts[i], n - e.ks[i])
+  /\ e.flt # None => /\ Len(e.fcuts) = Len(e.ks)                    \* a filter (whether or not it drops the message) does not change that
+                      /\ \A i \in 1..Len(e.ks) : e.fcuts[i].v = "inc" /\ HintOk(e.fcuts[i], n - e.ks[i])
 
 \* ---------------------------------------------------------------- C06
 ForwardOk(e) == LET d == Forward(e.buf)  r == e.res IN r.v = d.v /\ (d.v = "found" => r.dropped = d.dropped)
@@ -71,6 +73,10 @@ JunkParseOk(e) ==     \* a = parse(junk ++ msg ++ sfx), b = parse(msg ++ sfx), b
      /\ e.a.v = e.b.v /\ e.a.consumed = e.b.consumed + Len(e.junk)          \* same remainder
      /\ e.b.v = "msg" => e.a.m = e.b.m
      /\ e.b.v = "filtered" => e.a.n = e.b.n
+\* very long junk, given as `n` copies of one byte that is not part of the pattern
+Num == INSTANCE Numerals
+JunkRepOk(e) == (e.fill \notin {68, 76, 84, 1} /\ e.b.v = "msg") => (e.a.v = "msg" /\ e.a.m = e.b.m /\ e.a.consumed = e.b.consumed + e.n)
+ForwardRepOk(e) == e.fill \notin {68, 76, 84, 1} => (e.res.v = "found" /\ Num!Eq(e.res.dropped, e.n) /\ e.res.rest_len = 4)
 RecoverOk(e) ==       \* parts: [junk, msg, alone = parse(msg)]; steps: the session over junk1 msg1 junk2 msg2 ... tail
   LET n == Len(e.parts)
       premise == /\ \A i \in 1..n : PatternFreeBefore(e.parts[i].junk, e.parts[i].msg) /\ e.parts[i].alone.v = "msg"
@@ -122,6 +128,19 @@ IdsOk(e) == LET d == ParseVerdict(e.buf, e.sh)  r == e.res IN
                            /\ (IsSome(d.m.x) => IsSome(r.m.x) /\ r.m.x[1].ap = d.m.x[1].ap /\ r.m.x[1].ct = d.m.x[1].ct)
                            /\ (IsSome(d.m.sh) => IsSome(r.m.sh) /\ r.m.sh[1].ecu = d.m.sh[1].ecu)
 
+\* a buffer that ends inside one of the 4-byte id fields of a message (storage-header ECU id, header ECU id, application id,
+\* context id): fewer than 4 bytes of the field are available, so the parser must report incomplete
+InsideIdField(buf, sh) ==
+  LET k == IF sh THEN FindPattern(buf) ELSE 1
+      o == IF sh THEN k + 15 ELSE 0
+      avail == Len(buf) - o IN
+  IF sh /\ k = 0 THEN FALSE
+  ELSE IF sh /\ Len(buf) - (k - 1) \in 12..15 THEN TRUE
+  ELSE IF avail < 4 THEN FALSE
+  ELSE LET htyp == buf[o + 1]  std == StdLen(htyp) IN
+       \/ Bit(htyp, 2) = 1 /\ avail \in 4..7
+       \/ Bit(htyp, 0) = 1 /\ avail \in (std + 2)..(std + 9) /\ HdrsLen(htyp) <= U16(buf, o + 3, TRUE)
+IdCutOk(e) == (InsideIdField(e.buf, e.sh) /\ ParseVerdict(e.buf, e.sh).v = "inc") => e.res.v = "inc"
 Matches(e) == CASE e.op = "parse"     -> ParseOk(e)
                 [] e.op = "enc"       -> e.bytes = EncMessage(e.m)
                 [] e.op = "round"     -> RoundOk(e)
@@ -133,12 +152,15 @@ Matches(e) == CASE e.op = "parse"     -> ParseOk(e)
                 [] e.op = "forward"   -> ForwardOk(e)
                 [] e.op = "junkparse" -> JunkParseOk(e)
                 [] e.op = "recover"   -> RecoverOk(e)
+                [] e.op = "junkrep"   -> JunkRepOk(e)
+                [] e.op = "forwardrep" -> ForwardRepOk(e)
                 [] e.op = "filter"    -> FilterOk(e)
                 [] e.op = "construct" -> ConstructOk(e)
                 [] e.op = "reser"     -> ReserOk(e)
                 [] e.op = "stable"    -> StableOk(e)
                 [] e.op = "zstr"      -> ZStrOk(e)
                 [] e.op = "ids"       -> IdsOk(e)
+                [] e.op = "idcut"     -> IdCutOk(e)
                 [] OTHER              -> FALSE
 \* the premise under which a line's relation says anything at all (TRUE for relations without premise)
 Premise(e) == CASE e.op = "round"     -> WellFormed(e.m)
@@ -148,6 +170,7 @@ Premise(e) == CASE e.op = "round"     -> WellFormed(e.m)
                 [] e.op = "filter"    -> e.res0.v = "msg" /\ WellFormed(e.res0.m)
                 [] e.op = "stable"    -> Len(e.b2) = DeclaredLen(e.b2, e.sh)
                 [] e.op = "ids"       -> ParseVerdict(e.buf, e.sh).v = "msg"
+                [] e.op = "idcut"     -> InsideIdField(e.buf, e.sh) /\ ParseVerdict(e.buf, e.sh).v = "inc"
                 [] e.op \in {"frame", "session"} -> (IF e.op = "frame" THEN e.res.v ELSE e.steps[1].res.v) \in {"msg", "filtered", "skipped"}
                 [] OTHER -> TRUE
 Init == l = 1 /\ bad = <<>> /\ hits = 0
